@@ -497,6 +497,14 @@ def run(R):
                     ik = ik - {"cross_stage_borrowck"}
                     impl_kinds = [x for x in impl_kinds if x != "cross_stage_borrowck"]
                     dropped_cs = True
+            if rule == "singleton_by_value_generic" and verdict == "rejected" and mk == {"missing"} and ik == {"singleton_by_value"}:
+                # outside the model: the generic constructor is registered in a blueprint ABOVE the one that registers the
+                # singleton it takes by value. The abstract database files the instantiation under the template's scope
+                # (where the singleton is not visible: "missing"); pavexc binds the template for the scope that asks for it
+                # (get_or_try_bind), finds the singleton and reports the rule the program was planted for. The oracle
+                # above has already required exactly that report.
+                preempted += 1
+                continue
             if verdict in ("rejected", "accepted") and mk != ik and not (truncated and ik <= mk):
                 disagreements.append({"program": o["name"], "rule": rule, "model": sorted(mk), "pavexc": sorted(ik),
                                       "model_out": mouts[k], "abstract_db": adb, "failed_oracle": bool(why)})
